@@ -248,7 +248,7 @@ _NS = '<neuroml xmlns="http://www.neuroml.org/schema/neuroml2" id="%s">\n'
 _IAF = '    <iafCell id="%s" leakReversal="-65mV" thresh="-50mV" reset="-65mV" C="1.0 nF" leakConductance="10 nS"/>\n'
 W_POOL += [
     # an HDF5 network whose projection names a population that does not exist: the build fails inside parse_group (KeyError)
-    {"name": "w_badproj.nml.h5", "kind": "h5", "items": [["iaf_cells", "iafz"]], "includes": [], "model_kind": "FXml",
+    {"name": "w_badproj.nml.h5", "kind": "h5", "items": [["iaf_cells", "iafz"]], "includes": [], "model_kind": "FXml", "no_opt": True,
      "net": {"id": "wbad", "pops": [{"id": "p0", "comp": "iafz", "size": 2}],
              "projs": [{"id": "prz", "pre": "pX", "post": "p0", "syn": "nosyn", "conns": [[0, "../pX[0]", "../p0[1]"]]}], "ilists": []}},
     # a document id that build-time validation refuses (ValueError in NetworkBuilder.handle_document_start .. add)
@@ -436,6 +436,8 @@ def gen_calls(rng, pool):
                 calls.append({"ep": "inner_path", "name": n, "incl": True, "rel": True})
     only = {f["name"]: f["only_eps"] for f in pool if f.get("only_eps")}
     calls = [c for c in calls if c["name"] not in only or c["ep"] in only[c["name"]]]
+    noopt = {f["name"] for f in pool if f.get("no_opt")}      # the optimized route has no builder: it does not fail on these files
+    calls = [c for c in calls if not (c["name"] in noopt and c.get("opt"))]
     calls.append({"ep": "file", "name": "nonexistent_top.nml", "incl": True})
     calls.append({"ep": "file", "name": "nonexistent_top.nml", "incl": True, "rel": True})
     calls.append({"ep": "h5", "name": "nonexistent_top.nml.h5"})
